@@ -718,6 +718,11 @@ pub fn endian_bulk(cx: &mut Ctx, xs: &[u64], from_little: bool) {
 
 pub fn endian_magic(cx: &mut Ctx) {
     let cell = "endian/magic";
+    // the configuration builder carries no behaviour of its own (its fields are private and nothing reads them): building every preset must simply work
+    if guarded(|| { use zipora::io::EndianConfig; let _ = (EndianConfig::new(), EndianConfig::default(), EndianConfig::performance_optimized(), EndianConfig::cross_platform(),
+        EndianConfig::new().with_default_endianness(Endianness::Big).with_auto_detect(true).with_simd_acceleration(false)); }).is_err() {
+        cx.sum.fail(cell, None, json!({"cell": cell, "which": 9}), "an EndianConfig constructor panicked");
+    }
     for (i, e) in [Endianness::Little, Endianness::Big, Endianness::Native].into_iter().enumerate() {
         let cj = json!({"cell": cell, "which": i});
         if !cx.gate(&cj) { return; }
